@@ -10,7 +10,7 @@ CONSTANTS
   Dump = TRUE
 INVARIANT TypeOK
 INVARIANT RefSound
-INVARIANT ImplDiffersOnlyInZeroSign
+INVARIANT ImplDiffersOnlyWhereTagged
 INVARIANT Publish
 INVARIANT CountErr
 CHECK_DEADLOCK FALSE
